@@ -28,6 +28,7 @@ func init() {
 		Rule: "(a) random provable keys (safe primes of 48..130 bits, 1..4 square bases): BuildProof then VerifyProof must be true, also after a JSON round trip; (b) the proof must not verify under another modulus or a changed/permuted/extended/truncated base list; " +
 			"(c) a reflective walk enumerates every big-integer leaf of ValidKeyProof with its path, leaves are grouped into kinds by path pattern (indices abstracted), and a seeded sample covering kinds and positions is altered (+1, random same size, zero, sibling swap): VerifyProof must be false; " +
 			"(d) component verifiers (through tag-guarded wrappers) face cheating provers that know the factorisation of forbidden moduli: p^2*q, p^3, p*q*r, non-disjoint p,q, (p-1)/2 composite, N != 5 mod 8, a factor below 1024; both OR-branches of the exponentiation steps are counted from a hook; " +
+			"(e) results of the range secrets moved by +-k group orders (every exponent relation still holds, only the size limits can refuse); (f) 2 and 3 different proofs verified at the same time on ONE structure object under the schedule 'all structure checks, then all rebuilding' forced through keyproof.Follower, one altered proof among three; " +
 			"non-trivial = the verifier was entered; distinct by (key, operator, leaf path | modulus shape, strategy) hash; oracle: honest accepted, everything else rejected (a panic is recorded and counts as non-acceptance)",
 		Run: runC17,
 	}
